@@ -120,6 +120,14 @@ func byteSpecArg(s *slip.Scope, arg slip.Object, depth int) (size, pos int) {
 	} else {
 		slip.TypePanic(s, depth, "position", tail.Value, "fixnum")
 	}
+	// The bits of the byte are visited one by one so a negative size, which
+	// is a huge unsigned count, or an absurd one would never finish.
+	if size < 0 || slip.ArrayMaxDimension < size {
+		slip.TypePanic(s, depth, "size", spec[0], "non-negative fixnum below array-dimension-limit")
+	}
+	if pos < 0 || slip.ArrayMaxDimension < pos {
+		slip.TypePanic(s, depth, "position", tail.Value, "non-negative fixnum below array-dimension-limit")
+	}
 	return
 }
 
